@@ -1,8 +1,88 @@
-//! C10 correspondence streams (stub).
-use crate::util::Opts;
+//! C10: bus decode. After every write of a generated history the whole 64 KiB read image is digested per region.
+//! c10 type=T rom=R ram=M hist=a:v;... | d=<12 window digests> io=<hex of 0xFF00..0xFF7F> fd=<digest of fetch view> rd=<digest of reads at the same addresses>
+use crate::mem::{get_executable_memory_slice, memory_read_byte, memory_write_byte, MemoryAreas};
+use crate::roms::*;
+use crate::util::{hex, Opts, Rng};
 use std::io::Write;
 
-pub fn run(sub: &str, _opts: &Opts, _w: &mut dyn Write) {
-  eprintln!("stream c10.{} not implemented", sub);
-  std::process::exit(2);
+pub const WINDOWS: [(usize, usize); 12] = [
+  (0x0000, 0x4000), (0x4000, 0x8000), (0x8000, 0xa000), (0xa000, 0xc000), (0xc000, 0xd000), (0xd000, 0xe000),
+  (0xe000, 0xfe00), (0xfe00, 0xfea0), (0xfea0, 0xff00), (0xff00, 0xff80), (0xff80, 0xffff), (0xffff, 0x10000),
+];
+
+pub fn image_digests(p: *mut MemoryAreas) -> (Vec<u64>, Vec<u8>) {
+  let mut ds = Vec::new();
+  let mut io = Vec::new();
+  for (lo, hi) in WINDOWS.iter() {
+    let mut h = FNV0;
+    for a in *lo..*hi {
+      let b = memory_read_byte(p, a as u16);
+      h = fnv(h, b);
+      if *lo == 0xff00 { io.push(b); }
+    }
+    ds.push(h);
+  }
+  (ds, io)
+}
+
+fn fetch_digests(p: *mut MemoryAreas) -> (u64, u64) {
+  // fetch view vs data reads over ROM, work RAM and high RAM (every 7th address + region edges)
+  let mut hf = FNV0; let mut hr = FNV0;
+  let mut addrs: Vec<usize> = Vec::new();
+  let mut a = 0usize;
+  while a < 0x8000 { addrs.push(a); a += 7; }
+  a = 0xc000; while a < 0xe000 { addrs.push(a); a += 3; }
+  for a in 0xff80..0xffff { addrs.push(a); }
+  for e in [0x3fffusize, 0x4000, 0x7fff, 0xcfff, 0xd000, 0xdfff] { addrs.push(e); }
+  for a in addrs {
+    let s = get_executable_memory_slice(a, p);
+    hf = fnv(hf, if s.len() > 0 { s[0] } else { 0 });
+    hr = fnv(hr, memory_read_byte(p, a as u16));
+  }
+  (hf, hr)
+}
+
+pub fn gen_write(rng: &mut Rng) -> (u16, u8) {
+  let addr = match rng.below(10) {
+    0 | 1 | 2 => *rng.pick(&BOUNDARY),
+    3 => rng.below(0x8000) as u16,
+    4 => *rng.pick(&[0x2000u16, 0x2100, 0x3000, 0x4000, 0x5000, 0x6000, 0x7000, 0x0000]),
+    5 => 0x8000 + rng.below(0x2000) as u16,
+    6 => 0xa000 + rng.below(0x2000) as u16,
+    7 => 0xc000 + rng.below(0x2000) as u16,
+    8 => 0xfe00 + rng.below(0x200) as u16,
+    _ => rng.u16(),
+  };
+  let value = match rng.below(4) {
+    0 => *rng.pick(&[0u8, 1, 2, 3, 0x0a, 0x10, 0x1f, 0x20, 0x30, 0x40, 0x7f, 0x80, 0x90, 0xe0, 0xff]),
+    _ => rng.u8(),
+  };
+  (addr, value)
+}
+
+pub fn run(_sub: &str, opts: &Opts, w: &mut dyn Write) {
+  let mut rng = Rng::new(opts.seed ^ 0xc10);
+  let (shard, nshards) = opts.shard();
+  let cases = if opts.thorough { 1500 } else { 40 };
+  let cfgs: Vec<(u8, u8, u8)> = vec![
+    (0x00, 0, 0), (0x00, 0, 2), (0x01, 1, 0), (0x02, 2, 1), (0x03, 4, 3), (0x03, 5, 2), (0x01, 6, 0), (0x11, 3, 3),
+    (0x13, 6, 3), (0x12, 0x52, 2), (0x13, 7, 4), (0x03, 8, 5), (0x11, 0x54, 0), (0x02, 0x53, 3),
+  ];
+  let mut idx = 0usize;
+  for &(t, r, m) in cfgs.iter() {
+    for _ in 0..cases {
+      idx += 1;
+      let n = 1 + rng.below(12) as usize;
+      let hist: Vec<(u16, u8)> = (0..n).map(|_| gen_write(&mut rng)).collect();
+      if idx % nshards != shard { continue; }
+      let mut mem = mk_mem(t, r, m, &[]);
+      let p = &mut mem as *mut MemoryAreas;
+      for (a, v) in hist.iter() { memory_write_byte(p, *a, *v); }
+      let (ds, io) = image_digests(p);
+      let (fd, rd) = fetch_digests(p);
+      let hs: Vec<String> = hist.iter().map(|(a, v)| format!("{}:{}", a, v)).collect();
+      let dss: Vec<String> = ds.iter().map(|d| d.to_string()).collect();
+      writeln!(w, "c10 type={} rom={} ram={} hist={} | d={} io={} fd={} rd={}", t, r, m, hs.join(";"), dss.join(","), hex(&io), fd, rd).unwrap();
+    }
+  }
 }
